@@ -368,6 +368,7 @@ func init() {
 			x.runesFor(both, 20000*x.scale)
 		}
 		x.everyCodePoint()
+		x.orbitPairs()
 	}
 	props["C11"] = func(x *Ctx) {
 		x.anyFor(both, 150000*x.scale)
@@ -514,6 +515,43 @@ func (x *Ctx) everyCodePoint() {
 		}
 	}
 	x.note("every-code-point sweep: %d cases (step %d for caseless code points)", n, step)
+}
+
+// orbitPairs: for every folding orbit with more than one member, every ordered pair (a, b) of its
+// members placed next to each other (a first) behind short prefixes of every width, searched for each
+// member: the candidate searches of indexRune / indexRune2 look for one member, then for another in a
+// truncated haystack, and what they return depends on which member comes first and how wide it is
+func (x *Ctx) orbitPairs() {
+	pres := []string{"", "x", "xy", "é", "世"}
+	mids := []string{"", "-"}
+	n := 0
+	for r := rune(0); r <= 0x10FFFF; r++ {
+		o := orbitOf(r)
+		if len(o) == 1 || o[0] != r && orbitMin(r) != r {
+			continue // visit each orbit once, from its least member
+		}
+		if orbitMin(r) != r {
+			continue
+		}
+		for _, a := range o {
+			for _, b := range o {
+				if a == b {
+					continue
+				}
+				for _, pre := range pres {
+					for _, mid := range mids {
+						s := []byte(pre + string(a) + mid + string(b))
+						for _, m := range o {
+							x.eval(&Case{Fn: "IndexRune", S: s, R: int64(m)}, n%211 == 0)
+							n++
+						}
+						x.eval(&Case{Fn: "ContainsRune", S: s, R: int64(b)}, false)
+					}
+				}
+			}
+		}
+	}
+	x.note("orbit-pair adjacency sweep: %d IndexRune cases", n)
 }
 
 // anyGrid: (len s, len chars) across both thresholds x content classes
